@@ -80,11 +80,11 @@ def rpnStep (st : Option (List Item)) (tok : String) : Option (List Item) :=
     else if c == "N" then rest.toNat?.map fun i => Item.key (.idx i) :: st
     else if c == "b" then rest.toNat?.map fun w => Item.lay (.leaf w false) :: st
     else if c == "g" then rest.toNat?.map fun w => Item.lay (.leaf w true) :: st
-    else if c == "i" then rest.toNat?.map fun v => Item.obj (.int v (bitsFor v) false none) :: st
-    else if c == "n" then rest.toNat?.map fun w => Item.lay (.leaf w false) :: st     -- IntEnum: a plain unsigned shape
+    else if c == "i" then rest.toNat?.map fun v => Item.obj (.int v (bitsFor v) false none true) :: st
+    else if c == "n" then rest.toNat?.map fun w => Item.lay (.enum w (1000 + w) true) :: st   -- the IntEnum class of width w
     else if c == "e" then
       match (rest.splitOn ".").mapM String.toNat? with
-      | some [w, id] => some (Item.lay (.enum w id) :: st)
+      | some [w, id] => some (Item.lay (.enum w id false) :: st)
       | _ => none
     else if c == "C" then
       match rest.toNat?, st with
@@ -92,7 +92,7 @@ def rpnStep (st : Option (List Item)) (tok : String) : Option (List Item) :=
       | _, _ => none
     else if c == "E" then                                                              -- a member of an Enum class given directly
       match (rest.splitOn ".").mapM String.toNat? with
-      | some [v, w, id] => some (Item.obj (.int (v % 2 ^ w) w false (some id)) :: st)
+      | some [v, w, id] => some (Item.obj (.int (v % 2 ^ w) w false (some id) false) :: st)
       | _ => none
     else if c == "m" then
       (if rest == "C" then some Mode.common else if rest == "L" then some Mode.lhs
@@ -153,7 +153,7 @@ mutual
 /-- (signal, number of bits) for every node of the object; under a proxy every element signal -/
 def extents (c : Option (List Nat)) : Obj → List (Nat × Nat)
   | .val st off w _ _ => (match c with | some ss => ss | none => [st]).map fun s => (s, off + w)
-  | .int _ _ _ _ => []
+  | .int _ _ _ _ _ => []
   | .enumv st off w _ => (match c with | some ss => ss | none => [st]).map fun s => (s, off + w)
   | .const _ _ _ _ _ => []
   | .view _ st off size ms => ((match c with | some ss => ss | none => [st]).map fun s => (s, off + size)) ++ extentsM c ms
